@@ -281,5 +281,10 @@ BlockedServed == (Cap > 0 /\ \E t \in T : pc[t] = "blocked" /\ <<t, cur[t]>> \in
 SInv_C04 == NoStrand /\ NoDup /\ SenderOrder /\ ClosedLast /\ BlockedServed
 \* expected to FAIL for Cap = 0 (known finding KF-C04-rendezvous): a rendezvous sender can wait with no wake-up pending
 RendezvousServed == (Cap = 0 /\ \E t \in T : pc[t] = "blocked" /\ registered) => (counter >= 2 \/ WakeInFlight)
+\* end-to-end form (used to obtain *complete* counterexample schedules from the variants)
+\* state form of the end-to-end check: nothing stranded, Closed delivered once all senders are gone
+QuiescentC == finished => (queue = <<>> /\ offers = {} /\ (senders = 0 => closedSeen))
+EndInv == finished => Inv_C04
+EndInvS == QuiescentC
 Done == finished
 =============================================================================
